@@ -3,8 +3,8 @@
    is_optimal q l (unit quaternion of least deviation) is what it is REQUIRED to return:
    C02_eigen_decomposition_is_optimal derives it from the orthonormal eigen-decomposition of the overlap matrix that the
    Jacobi routine is assumed to produce (verified numerically by the check on every rotation case).
-   Rotations of the atoms are given by unit quaternions p (rotation_matrix p is a proper rotation,
-   C02_unit_quaternion_is_rotation; that every proper rotation is of this form is not proved here). *)
+   Rotations of the atoms are arbitrary proper rotation matrices M (M^T M = I, det M = 1), as in the other files:
+   C02_every_rotation_is_a_quaternion shows that each of them is rotation_matrix p for a unit quaternion p. *)
 From Coq Require Import ZArith List Bool Reals Lra Lia Permutation.
 From CV Require Import Base.Num Base.RNum C18.ValueModel C02.ValueModel C02.ValueProofs C02.RotProofs.
 Import ListNotations.
@@ -34,21 +34,48 @@ Proof.
   intros q vec. unfold cv_eigenvector, fit_positions. rewrite centered_shift by exact H. reflexivity.
 Qed.
 Print Assumptions C02_translation_invariant_rmsd.
-Theorem C02_rigid_invariant_rmsd : forall (p q q' : Q4) ref t g, qnorm2 p = 1 -> g <> [] ->
+Theorem C02_every_rotation_is_a_quaternion : forall M : M3, proper_rotation M ->
+  exists q : Q4, qnorm2 q = 1 /\ rotation_matrix Rops q = M.
+Proof. exact rotation_is_quaternion. Qed.
+Print Assumptions C02_every_rotation_is_a_quaternion.
+Theorem C02_rigid_invariant_rmsd : forall (M : M3) (q q' : Q4) ref t g, proper_rotation M -> g <> [] ->
   is_optimal q (fit_pairs Rops ref g) ->
-  is_optimal q' (fit_pairs Rops ref (shift_group t (rot_group (rotation_matrix Rops p) g))) ->
-  cv_rmsd Rops q' ref (shift_group t (rot_group (rotation_matrix Rops p) g)) = cv_rmsd Rops q ref g.
-Proof. exact rmsd_rigid. Qed.
+  is_optimal q' (fit_pairs Rops ref (shift_group t (rot_group M g))) ->
+  cv_rmsd Rops q' ref (shift_group t (rot_group M g)) = cv_rmsd Rops q ref g.
+Proof. exact rmsd_rigid_M. Qed.
 Print Assumptions C02_rigid_invariant_rmsd.
 (* fitted variables: positions in the fitted frame (cartesian of a fitted group), eigenvector *)
-Theorem C02_rigid_invariant_fitted : forall (p q q' : Q4) ref vec t g, qnorm2 p = 1 -> g <> [] ->
+Theorem C02_rigid_invariant_fitted : forall (M : M3) (q q' : Q4) ref vec t g, proper_rotation M -> g <> [] ->
   unique_optimum (fit_pairs Rops ref g) ->
   is_optimal q (fit_pairs Rops ref g) ->
-  is_optimal q' (fit_pairs Rops ref (shift_group t (rot_group (rotation_matrix Rops p) g))) ->
-  fit_positions Rops q' ref (shift_group t (rot_group (rotation_matrix Rops p) g)) = fit_positions Rops q ref g /\
-  cv_eigenvector Rops q' ref vec (shift_group t (rot_group (rotation_matrix Rops p) g)) = cv_eigenvector Rops q ref vec g.
-Proof. intros. split; [apply (fit_positions_rigid p q q') | apply (eigenvector_rigid p q q')]; assumption. Qed.
+  is_optimal q' (fit_pairs Rops ref (shift_group t (rot_group M g))) ->
+  fit_positions Rops q' ref (shift_group t (rot_group M g)) = fit_positions Rops q ref g /\
+  cv_eigenvector Rops q' ref vec (shift_group t (rot_group M g)) = cv_eigenvector Rops q ref vec g.
+Proof. exact fitted_rigid_M. Qed.
 Print Assumptions C02_rigid_invariant_fitted.
+
+(* rmsd with atomPermutation: without permutations it is the plain rmsd; otherwise it is at most the rmsd against the
+   reference and against every listed permuted copy of it (it is the smallest of them) *)
+Theorem C02_rmsd_atomPermutation : forall (q : Q4) ref perms g,
+  cv_rmsd_perm Rops q ref [] g = cv_rmsd Rops q ref g /\
+  cv_rmsd_perm Rops q ref perms g <= cv_rmsd Rops q ref g /\
+  (forall perm, In perm perms ->
+     cv_rmsd_perm Rops q ref perms g <= sqrt (perm_sum Rops (fit_positions Rops q ref g) ref perm / INR (length g))).
+Proof. intros. split; [apply cv_rmsd_perm_nil | apply cv_rmsd_perm_min]. Qed.
+Print Assumptions C02_rmsd_atomPermutation.
+
+(* a group fitted through a separate fittingGroup (fitg): its coordinates in the fitted frame are unchanged by a rigid
+   motion of all atoms; with rotateToReference off, by translations *)
+Theorem C02_rigid_invariant_fitting_group : forall (M : M3) (q q' : Q4) ref t fitg g, proper_rotation M -> fitg <> [] ->
+  unique_optimum (fit_pairs Rops ref fitg) ->
+  is_optimal q (fit_pairs Rops ref fitg) -> is_optimal q' (fit_pairs Rops ref (shift_group t (rot_group M fitg))) ->
+  fit_general Rops true q' ref (shift_group t (rot_group M fitg)) (shift_group t (rot_group M g)) = fit_general Rops true q ref fitg g /\
+  fit_general Rops false q ref (shift_group t fitg) (shift_group t g) = fit_general Rops false q ref fitg g /\
+  fit_general Rops true q ref g g = fit_positions Rops q ref g.
+Proof.
+  intros. split; [apply (fit_general_rigid M q q'); assumption | split; [apply fit_general_center_shift; assumption | apply fit_general_self]].
+Qed.
+Print Assumptions C02_rigid_invariant_fitting_group.
 
 (* orientation family: unchanged by translations (same pairs, hence same quaternion and same angles); under a rotation p
    of the atoms the optimal rotation becomes p o q and the least deviation is unchanged *)
@@ -56,21 +83,15 @@ Theorem C02_translation_invariant_orientation : forall ref t g, g <> [] ->
   orient_pairs Rops ref (shift_group t g) = orient_pairs Rops ref g.
 Proof. exact orient_pairs_shift. Qed.
 Print Assumptions C02_translation_invariant_orientation.
-Theorem C02_rotation_equivariant_orientation : forall (p q q' : Q4) ref t g, qnorm2 p = 1 -> g <> [] ->
+Theorem C02_rotation_equivariant_orientation : forall (M : M3) (q q' : Q4) ref t g, proper_rotation M -> g <> [] ->
   is_optimal q (orient_pairs Rops ref g) ->
-  is_optimal q' (orient_pairs Rops ref (shift_group t (rot_group (rotation_matrix Rops p) g))) ->
-  is_optimal (qmul Rops p q) (orient_pairs Rops ref (shift_group t (rot_group (rotation_matrix Rops p) g))) /\
-  sq_dev Rops q' (orient_pairs Rops ref (shift_group t (rot_group (rotation_matrix Rops p) g))) = sq_dev Rops q (orient_pairs Rops ref g) /\
-  (unique_optimum (orient_pairs Rops ref (shift_group t (rot_group (rotation_matrix Rops p) g))) ->
-   forall v : V3, rotate Rops q' v = rotate Rops p (rotate Rops q v)).
-Proof.
-  intros p q q' ref t g Hp Hg Hq Hq'.
-  assert (Hg' : rot_group (rotation_matrix Rops p) g <> []) by (destruct g; [congruence | discriminate]).
-  split; [|split].
-  - rewrite orient_pairs_shift, orient_pairs_rot by exact Hg'. apply optimal_rot_second; assumption.
-  - apply orientation_dev_rigid; assumption.
-  - intros Hu. apply (orientation_rigid p q q' ref t g); assumption.
-Qed.
+  is_optimal q' (orient_pairs Rops ref (shift_group t (rot_group M g))) ->
+  (exists p : Q4, qnorm2 p = 1 /\ rotation_matrix Rops p = M /\
+                  is_optimal (qmul Rops p q) (orient_pairs Rops ref (shift_group t (rot_group M g)))) /\
+  sq_dev Rops q' (orient_pairs Rops ref (shift_group t (rot_group M g))) = sq_dev Rops q (orient_pairs Rops ref g) /\
+  (unique_optimum (orient_pairs Rops ref (shift_group t (rot_group M g))) ->
+   forall v : V3, rotate Rops q' v = mat_vec Rops M (rotate Rops q v)).
+Proof. exact orientation_rigid_M. Qed.
 Print Assumptions C02_rotation_equivariant_orientation.
 
 (* sign ambiguity of the optimal-rotation quaternion: -q is optimal whenever q is, and every component value is the same *)
